@@ -75,6 +75,7 @@ def _inplace(xp, a, b):
 
 
 CASES += [("masked_assign", _masked), ("inplace_view", _inplace)]
+CASES += [("sort_axis0", lambda xp, a, b: xp.sort(a, axis=0)), ("sort_last", lambda xp, a, b: xp.sort(b))]
 
 
 def run(seed=0, rounds=3):
